@@ -425,10 +425,14 @@ def run_case(case, keep_log=False):
         res["log_digest"] = log.digest()
         return res
     params = list(R.__code__.co_varnames[: R.__code__.co_argcount])
-    T = build_T(src)
-    log.add("pipeline", [T[0]] + [str(x) for x in T[2:3]] if T[0] != "ok" else ["ok", jdigest(T[2])])
-    if T[0] == "error":
-        viol("C07", "internal-error", "%s:step=%s" % (T[2], T[1]), 0, T[3])
+    # In half of the runs the regenerated function is built after the two graphs,
+    # i.e. from the third conversion of the same text in this process: a result that
+    # depends on what the process converted before (caches, trees rewritten in
+    # place: seeded changes C07-4, C07-16, C08-11) then shows in T as well as in B.
+    t_last = bool(case.get("env_seed", 0) % 2) and not case.get("t_first")
+    T = None
+    if not t_last:
+        T = build_T(src)
     Bs = {}
     for prune in (True, False):
         Bv = build_B(src, prune)
@@ -436,6 +440,11 @@ def run_case(case, keep_log=False):
         if Bv[0] == "uninterpretable":
             viol("C08", "graph-not-interpretable", "prune=%s" % prune, 0, Bv[1])
         log.add("graph", [prune, Bv[0]])
+    if t_last:
+        T = build_T(src)
+    log.add("pipeline", [T[0]] + [str(x) for x in T[2:3]] if T[0] != "ok" else ["ok", jdigest(T[2])])
+    if T[0] == "error":
+        viol("C07", "internal-error", "%s:step=%s" % (T[2], T[1]), 0, T[3])
     res["reach"]["pipeline"] = T[0] if T[0] != "error" else "error:" + T[1]
     explicit = case.get("schedules")
     rng = Rng(case.get("env_seed", 0), "schedules")
